@@ -604,6 +604,8 @@ class Library:
         N = lambda fn: Native(name, fn, needs_interp=False)
         if it.barriers and isinstance(v, (VList, VDict, VSet)) and name in _MUTATORS:
             it.barrier_obj(v, f'.{name}()')
+        if name in _MUTATORS and isinstance(v, (VList, VDict, VSet)) and v.born == 0:
+            it.static_write(v, f'.{name}()')
         if isinstance(v, VList):
             L = v.items
             if name == 'append':
